@@ -119,9 +119,17 @@ theorem calculate_hashes_eq (H : Bytes → Bytes) (mask : Nat) (kind : Int) (ref
     subst hoff; simp only [kPruned, beq_iff_eq]; split <;> omega
   simp only [hoffI]
   rw [show ((0 : Nat), ([] : List Nat), ([] : List Bytes)) = encSt ⟨0, [], []⟩ from rfl]
-  rw [foldlM_sim encSt _ (hashStep H kind bits refs mask off)]
+  have hoff0 : kind = 1 ∨ off = 0 := by
+    by_cases hk : kind = 1
+    · exact Or.inl hk
+    · right; subst hoff; simp [kPruned, hk]
+  -- the step only has to agree on reachable states: `hash_index = 0` exactly before level 0 (`levelInv`)
+  rw [foldlM_sim_range encSt _ (hashStep H kind bits refs mask off) levelInv (levelInv_step H kind bits refs mask off) ?step _ _
+    (Or.inl ⟨rfl, rfl⟩)]
   · cases List.foldlM (hashStep H kind bits refs mask off) ⟨0, [], []⟩ (List.range (bitLength mask + 1)) <;> simp [encSt]
-  · rintro ⟨hi, hs, ds⟩ li
+  case step =>
+    rintro li ⟨hi, hs, ds⟩ hP
+    have hP' : (li = 0 ∧ hi = 0) ∨ (0 < li ∧ 0 < hi) := hP
     simp only [encSt]
     unfold hashStep
     by_cases hsig : isSignificant mask li = true
@@ -145,7 +153,7 @@ theorem calculate_hashes_eq (H : Bytes → Bytes) (mask : Nat) (kind : Int) (ref
       by_cases heq : hi = off <;> (first | have heq' := eq_false heq | have heq' := eq_true heq) <;>
       by_cases h0 : li = 0 <;> (first | have h0' := eq_false h0 | have h0' := eq_true h0) <;>
       by_cases hp : kind = 1 <;> (first | have hp' := eq_false hp | have hp' := eq_true hp) <;>
-      simp only [hM, hm', hI, hI2, hI3, heq', h0', hp', hgI, kPruned, Option.bind_some, ne_eq, not_true_eq_false, not_false_eq_true, and_true, and_false,
+      first | (exfalso; omega) | simp only [hM, hm', hI, hI2, hI3, heq', h0', hp', hgI, kPruned, Option.bind_some, ne_eq, not_true_eq_false, not_false_eq_true, and_true, and_false,
         true_and, false_and, or_true, or_false, true_or, false_or, if_true, if_false, Option.bind_none, Bool.and_false, Bool.false_and,
         Bool.and_true, Bool.true_and, Bool.or_true, Bool.or_false, Bool.true_or, Bool.false_or, Bool.false_eq_true, Option.map_none, Option.bind_eq_bind, Option.pure_def,
         beq_iff_eq, bne_iff_ne, decide_true, decide_false, Bool.and_eq_true, Bool.or_eq_true, reduceCtorEq]
@@ -155,7 +163,7 @@ theorem calculate_hashes_eq (H : Bytes → Bytes) (mask : Nat) (kind : Int) (ref
       by_cases heq : hi = off <;> (first | have heq' := eq_false heq | have heq' := eq_true heq) <;>
       by_cases h0 : li = 0 <;> (first | have h0' := eq_false h0 | have h0' := eq_true h0) <;>
       by_cases hp : kind = 1 <;> (first | have hp' := eq_false hp | have hp' := eq_true hp) <;>
-      simp only [hM, hm', hI, hI2, hI3, heq', h0', hp', hgI, kPruned, Option.bind_some, ne_eq, not_true_eq_false, not_false_eq_true, and_true, and_false,
+      first | (exfalso; omega) | simp only [hM, hm', hI, hI2, hI3, heq', h0', hp', hgI, kPruned, Option.bind_some, ne_eq, not_true_eq_false, not_false_eq_true, and_true, and_false,
         true_and, false_and, or_true, or_false, true_or, false_or, if_true, if_false, Option.bind_none, Bool.and_false, Bool.false_and,
         Bool.and_true, Bool.true_and, Bool.or_true, Bool.or_false, Bool.true_or, Bool.false_or, Bool.false_eq_true, Option.map_none, Option.bind_eq_bind, Option.pure_def,
         beq_iff_eq, bne_iff_ne, decide_true, decide_false, Bool.and_eq_true, Bool.or_eq_true, reduceCtorEq]
